@@ -1336,6 +1336,9 @@ def run(ctx: Ctx) -> Outcome:
     for (family, steps), recs in zip(episodes, seq_recs):
         if pre_budget[0] > 0 and any(r.get("bad") for r in recs):
             digest_episode(impl, Outcome(), family, steps, recs, None, shrinker=shrink_now, budget=pre_budget)
+    import sideeffects
+
+    sideeffects.exercise(out)  # the pristine-process block is done: header writers / printers / comparison reports now, before the exhaustive sweeps
     seq_lines = [seq_model_lines(impl, st) for _, st in episodes]
     lines = [get_line(impl, c) for _, c in gets] + [tou_line(impl, c) for c in tous] + [f"mk {k} {1 if n else 0}" for k, _, n in mks] + [f"keys {s}" for s in SETS]
     # streams with the DERIVED factor (generated after everything else, so the older streams of a seed are unchanged)
